@@ -50,6 +50,11 @@ def confirm(wt, k):
             return prop, 'pinned tests fail with patch: ' + out[-300:]
         shutil.copy(os.path.join(d, 'demo_test.go'), demo_dst)
         tcmd = ['go', 'test', '-vet=off', '-count=1', '-run', '^%s$' % meta['test_name'], './' + meta['pkg_dir'] + '/']
+        if meta.get('needs_overlay') or meta['pkg_dir'].rstrip('/') == 'gameboy':
+            ov = os.path.join(wt, '_ov.json')
+            json.dump({'Replace': {os.path.join(wt, 'gameboy/display/display.go'): '/verif/stubs/display/display.go',
+                                   os.path.join(wt, 'gameboy/speakers/speakers.go'): '/verif/stubs/speakers/speakers.go'}}, open(ov, 'w'))
+            tcmd[2:2] = ['-overlay', ov]
         rc, out = sh(tcmd, wt)
         ran.append(' '.join(tcmd) + ' (with patch) -> %d' % rc)
         if rc == 0 or 'FAIL' not in out or '[build failed]' in out or 'no tests to run' in out:
